@@ -175,6 +175,8 @@ _OPS = {
     np.square: lambda x: tor(x) * tor(x),
     np.maximum: lambda x, y: _max(tor(x), tor(y)),
     np.minimum: lambda x, y: _min(tor(x), tor(y)),
+    np.fmax: lambda x, y: _fmax(tor(x), tor(y)),
+    np.fmin: lambda x, y: _fmin(tor(x), tor(y)),
     np.power: lambda x, k: tor(x) ** k,
     np.sign: lambda x: _sign(tor(x)),
     np.remainder: lambda x, y: _num(x) % _num(y),
@@ -229,6 +231,15 @@ def _min(x, y):
         return SR(Fraction(0), True)
     r = ite_s(_ge_nonan(y, x), _strip(x), _strip(y))
     return SR(r.v, nan, r.inf)
+
+
+def _fmax(x, y):
+    # np.fmax ignores a NaN operand (NaN only when both are)
+    return ite_s(SB(x.nan), y, ite_s(SB(y.nan), x, _max(_strip(x), _strip(y))))
+
+
+def _fmin(x, y):
+    return ite_s(SB(x.nan), y, ite_s(SB(y.nan), x, _min(_strip(x), _strip(y))))
 
 
 def _strip(x):
@@ -686,6 +697,10 @@ def _reduce(ufunc, a, axis=0, **kw):
         return _reduce_axis(a, lambda it: _fold(_max, it), axis, None)
     if ufunc is np.minimum:
         return _reduce_axis(a, lambda it: _fold(_min, it), axis, None)
+    if ufunc is np.fmax:
+        return _reduce_axis(a, lambda it: _fold(_fmax, it), axis, None)
+    if ufunc is np.fmin:
+        return _reduce_axis(a, lambda it: _fold(_fmin, it), axis, None)
     raise NotImplementedError(f"reduce of {ufunc.__name__}")
 
 
